@@ -271,3 +271,15 @@ Proof. exact (ListingNav.set_time_nearest round53 round53_mono L). Qed.
 Lemma set_time_exact_round53 L s t j : sorted_lt (times L) -> nth_error (times L) j = Some t ->
   exists s', step round53 L s (SetTime t) = (s', ONone) /\ idx s' = Z.of_nat j.
 Proof. exact (set_time_exact round53 L s t j round53_mono round53_zero round53_pos). Qed.
+
+(** ** the dtype assumption of [set_step_nearest] / [set_time_nearest]: the subtraction [fullsteps - step] is
+    exact for SIGNED machine integers (and monotonically rounded for float64 times).  With an unsigned
+    32-bit steps array it wraps, |x - v| becomes (x - v) mod 2^32, and the arg-min is no longer the
+    nearest result set (seeded change C07-m8); the harness checks on every run that the arrays are signed *)
+Lemma nearest_unsigned_wrap_refuted : exists vals v x xi,
+  sorted_lt vals /\ In x vals /\
+  nth_error vals (argmin (map (fun y => (y - v) mod 2 ^ 32) vals)) = Some xi /\ Z.abs (x - v) < Z.abs (xi - v).
+Proof.
+  exists [10; 20], 12, 10, 20. split; [cbn; repeat constructor; lia|]. split; [left; reflexivity|].
+  split; [vm_compute; reflexivity|vm_compute; reflexivity].
+Qed.
